@@ -159,6 +159,7 @@ def by_case(records):
 
 # --------------------------------------------------------------------------- TLC
 TLC_JAR = "/opt/veriftools/tla/tla2tools.jar"
+TLC_CP = TLC_JAR + ":/opt/veriftools/tla/CommunityModules-deps.jar"
 
 
 def run_tlc(module, cfg, wd, env_extra=None, workers=1, timeout=900, simulate=None, depth=None,
@@ -167,13 +168,16 @@ def run_tlc(module, cfg, wd, env_extra=None, workers=1, timeout=900, simulate=No
     import uuid
     meta = os.path.join(wd, "tlc-%s-%s" % (module, uuid.uuid4().hex[:10]))
     os.makedirs(meta, exist_ok=True)
-    jopts = "-Xss1g -Xmx%s -Djava.io.tmpdir=%s" % (xmx, meta)
+    # (the JVM options are given on the command line, not through JAVA_TOOL_OPTIONS: the stack size of the MAIN thread -
+    # which evaluates the invariants on the initial states - is fixed by the launcher before that variable is read)
+    jopts = ["-Xss1g", "-Xmx%s" % xmx, "-Djava.io.tmpdir=%s" % meta, "-XX:+UseParallelGC"]
     if deque:
-        jopts += " -Dtlc2.tool.queue.IStateQueue=StateDeque"
-    env = dict(os.environ, JAVA_TOOL_OPTIONS=jopts)
+        jopts.append("-Dtlc2.tool.queue.IStateQueue=StateDeque")
+    env = dict(os.environ)
+    env.pop("JAVA_TOOL_OPTIONS", None)
     if env_extra:
         env.update({k: str(v) for k, v in env_extra.items()})
-    cmd = ["timeout", str(timeout), "tlc", "-workers", str(workers), "-metadir", meta, "-cleanup",
+    cmd = ["timeout", str(timeout), "java"] + jopts + ["-cp", TLC_CP, "tlc2.TLC", "-workers", str(workers), "-metadir", meta, "-cleanup",
            "-noGenerateSpecTE", "-config", cfg if os.path.isabs(cfg) else os.path.join(SPEC, cfg)]
     if simulate:
         cmd += ["-simulate", "num=%d" % simulate]
